@@ -19,10 +19,19 @@ Proof. vm_compute. auto. Qed.
 
 (* writes_are_reported / successful_build_disk_exact: writes, a skip and a delete in one step *)
 Example ex_history_effects :
-  map (fun r => (r_failed_early r, r_effects r)) (trace phys_id ex_opts (init ex_d0) [ex_oc1; ex_oc2; ex_oc3]) =
+  map (fun r => (r_failed_early r, r_effects r)) (trace phys_id ex_opts (init ex_d0) [ex_oc1; ex_oc2; ex_oc3; ex_oc1]) =
   [(false, [EWrite (P "/out/a.js") [10]; EWrite (P "/out/b.js") [11]]);
    (false, [EWrite (P "/out/c.js") [12]; EDelete (P "/out/b.js")]);
-   (true,  [EDelete (P "/out/c.js"); EDelete (P "/out/a.js")])].
+   (true,  []);
+   (false, [EWrite (P "/out/b.js") [11]; EDelete (P "/out/c.js")])].
+Proof. vm_compute. reflexivity. Qed.
+(* before d19e8cb the failing third rebuild deleted the outputs and forgot the table *)
+Example ex_history_effects_before_fix :
+  map (fun r => (r_failed_early r, r_effects r)) (trace_gen phys_id false ex_opts (init ex_d0) [ex_oc1; ex_oc2; ex_oc3; ex_oc1]) =
+  [(false, [EWrite (P "/out/a.js") [10]; EWrite (P "/out/b.js") [11]]);
+   (false, [EWrite (P "/out/c.js") [12]; EDelete (P "/out/b.js")]);
+   (true,  [EDelete (P "/out/c.js"); EDelete (P "/out/a.js")]);
+   (false, [EWrite (P "/out/a.js") [10]; EWrite (P "/out/b.js") [11]])].
 Proof. vm_compute. reflexivity. Qed.
 
 Example ex_success_hypotheses :
@@ -33,13 +42,15 @@ Example ex_success_hypotheses :
   lookup (disk st2) (P "/out/c.js") = Some [12] /\ lookup (disk st2) (P "/out/keep.txt") = Some [7].
 Proof. vm_compute. repeat split; reflexivity. Qed.
 
-(* failed_build_writes_nothing: a failing step with a non-empty delete list; the repaired step has none *)
+(* failed_build_deletes_nothing: a failing step from a state with a non-empty
+   hash table; before d19e8cb its delete list was not empty *)
 Example ex_failed_step :
   let st2 := run phys_id ex_opts (init ex_d0) [ex_oc1; ex_oc2] in
+  keys (latest st2) = [P "/out/c.js"; P "/out/a.js"] /\
   r_failed_early (snd (step phys_id ex_opts st2 ex_oc3)) = true /\
-  deletes_of (r_effects (snd (step phys_id ex_opts st2 ex_oc3))) = [P "/out/c.js"; P "/out/a.js"] /\
-  r_effects (snd (step_fixed phys_id ex_opts st2 ex_oc3)) = [] /\
-  fst (step_fixed phys_id ex_opts st2 ex_oc3) = st2.
+  deletes_of (r_effects (snd (step_before_fix phys_id ex_opts st2 ex_oc3))) = [P "/out/c.js"; P "/out/a.js"] /\
+  r_effects (snd (step phys_id ex_opts st2 ex_oc3)) = [] /\
+  fst (step phys_id ex_opts st2 ex_oc3) = st2.
 Proof. vm_compute. repeat split; reflexivity. Qed.
 
 (* cancellation and writing disabled are failed/non-writing builds too *)
